@@ -214,7 +214,7 @@ fn check(c: &Case, ctx: &Ctx) -> Outcome {
             "k={k} ancestor={:?} sites={:?} samples={}: {msg}",
             m.ancestor.iter().map(|r| lossy(r)).collect::<Vec<_>>(),
             m.sites.iter().map(|(c, p, a)| (*c, *p, lossy(a))).collect::<Vec<_>>(),
-            super::c07::show_samples(&m.samples)
+            super::common::show_samples(&m.samples)
         )),
         Err(o) => o,
         Ok(()) => {
